@@ -420,10 +420,6 @@ def desugar_adaptor_next(rec, prog, stats):
         if not kind:
             continue
         kind = kind[0]
-        if kind.endswith("Filter") and os.environ.get("VERIF_DESUGAR_FILTER") != "1":
-            # Filter::next is left as it is: the list rules (Q-pred / Q-flow of the SSR encoders, K-*) are written against the adaptor form
-            # `for e in v.iter().filter(p)`, which today's tree uses; only FilterMap (not used today) is expanded
-            continue
         a = t["args"][0]
         if a["k"] != "move" or a["place"]["proj"]:
             continue
@@ -444,6 +440,11 @@ def desugar_adaptor_next(rec, prog, stats):
                 break
             cur = pl["local"]
         if base is None or rec["locals"][base].get("path") != kind:
+            continue
+        if kind.endswith("Filter") and os.environ.get("VERIF_DESUGAR_FILTER") != "1" and base not in rec.get("_expand_filter", ()):
+            # Filter::next is left as it is: the list rules (Q-pred / Q-flow of the SSR encoders, K-*) are written against the adaptor form
+            # `for e in v.iter().filter(p)`, which today's tree uses; FilterMap (not used today) is expanded, and a Filter that sits under an
+            # expanded Enumerate (desugar_enumerate_over_adaptor)
             continue
         # follow moves / into_iter back to the constructor call
         chain = []          # (what, block, stmt index / None)
@@ -548,6 +549,130 @@ def desugar_adaptor_next(rec, prog, stats):
                                   "term": {"k": "goto", "target": t["target"]}})
         rec["blocks"].append({"stmts": [], "term": {"k": "unreachable"}})
         stats.setdefault(rec["path"], []).append("desugar:" + kind.rsplit("::", 1)[1] + "::next")
+        return True
+    return False
+
+
+ENUM_NEXT = "<core::iter::Enumerate<I> as core::iter::Iterator>::next"
+
+
+def desugar_enumerate_over_adaptor(rec, prog, stats):
+    """`for (k, y) in it.filter(p).enumerate()`: Enumerate::next over a Filter / FilterMap is replaced by its definition with an explicit
+    counter -  match inner.next() { None => None, Some(y) => { let k = count; count += 1; Some((k, y)) } }  - and the inner adaptor is then
+    expanded by desugar_adaptor_next, which leaves the hand-written loop `for x in it { if p(&x) { .. count .. } }`.  Enumerate over a plain
+    slice iterator or range (the shape today's tree and the rules use) is left alone."""
+    for bi, blk in enumerate(rec["blocks"]):
+        t = blk["term"]
+        if t["k"] != "call" or t.get("target") is None or len(t.get("args", [])) != 1 or t["dest"]["proj"]:
+            continue
+        if (t.get("resolved") or t.get("callee")) != ENUM_NEXT:
+            continue
+        a = t["args"][0]
+        if a["k"] != "move" or a["place"]["proj"]:
+            continue
+        drop_stmts = []
+        cur = a["place"]["local"]
+        base = None
+        for _ in range(4):
+            d = _single_def(rec, cur)
+            if d is None or d[0] != "stmt" or d[1] != bi or d[3]["rv"]["k"] != "ref" or _uses_of(rec, cur) != 2:
+                break
+            pl = d[3]["rv"]["place"]
+            drop_stmts.append(d[3])
+            if not pl["proj"]:
+                base = pl["local"]
+                break
+            if [x["k"] for x in pl["proj"]] != ["deref"]:
+                break
+            cur = pl["local"]
+        if base is None:
+            continue
+        ety = rec["locals"][base]
+        if ety.get("path") != "core::iter::Enumerate" or not ety.get("args") or ety["args"][0].get("path") not in ADAPTOR_NEXT:
+            continue
+        inner_ty = ety["args"][0]
+        chain = []
+        cur = base
+        ctor = None
+        for _ in range(6):
+            d = _single_def(rec, cur)
+            if d is None:
+                break
+            if d[0] == "stmt" and d[3]["rv"]["k"] == "use" and d[3]["rv"]["op"]["k"] == "move" and not d[3]["rv"]["op"]["place"]["proj"]:
+                chain.append(d)
+                cur = d[3]["rv"]["op"]["place"]["local"]
+                continue
+            if d[0] == "call":
+                cc = d[3].get("resolved") or d[3].get("callee")
+                if cc.endswith("::into_iter") and len(d[3]["args"]) == 1 and d[3]["args"][0]["k"] == "move" and not d[3]["args"][0]["place"]["proj"]:
+                    chain.append(d)
+                    cur = d[3]["args"][0]["place"]["local"]
+                    continue
+                if (d[3].get("callee") == "core::iter::Iterator::enumerate" or cc == "core::iter::Iterator::enumerate") and len(d[3]["args"]) == 1:
+                    ctor = d
+            break
+        if ctor is None:
+            continue
+        it_op = ctor[3]["args"][0]
+        if not (it_op["k"] == "move" and not it_op["place"]["proj"]):
+            continue
+        inner = it_op["place"]["local"]
+        if rec["locals"][inner] != inner_ty:
+            continue
+        dty = rec["locals"][t["dest"]["local"]]          # Option<(usize, Item)>
+        if not (dty.get("k") == "adt" and dty.get("args") and dty["args"][0].get("k") == "tuple" and len(dty["args"][0]["elems"]) == 2):
+            continue
+        pair_ty = dty["args"][0]
+        item_ty = pair_ty["elems"][1]
+        line = t.get("line")
+        usz = {"k": "uint", "bits": 64, "name": "usize"}
+        isz = {"k": "int", "bits": 64, "name": "isize"}
+        n = len(rec["locals"])
+        opt_item = {"k": "adt", "path": "core::option::Option", "args": [item_ty], "s": "core::option::Option<Item>"}
+        rec["locals"].extend([usz, {"k": "ref", "mut": True, "to": inner_ty}, opt_item, isz, item_ty, pair_ty, usz])
+        cnt, r, x, dx, item, pair, kcur = range(n, n + 7)
+        # constructor: count = 0; the links become no-ops
+        cb = rec["blocks"][ctor[1]]
+        cb["stmts"] = list(cb["stmts"]) + [{"k": "assign", "place": {"local": cnt, "proj": []}, "rv": {"k": "use", "op": {"k": "const", "ty": usz, "bits": 0, "val": 0, "size": 8}}, "line": line}]
+        cb["term"] = {"k": "goto", "target": ctor[3]["target"]}
+        for d in chain:
+            if d[0] == "stmt":
+                rec["blocks"][d[1]]["stmts"] = [y for y in rec["blocks"][d[1]]["stmts"] if y is not d[3]]
+            else:
+                rec["blocks"][d[1]]["term"] = {"k": "goto", "target": d[3]["target"]}
+        blk["stmts"] = [y for y in blk["stmts"] if not any(y is z for z in drop_stmts)]
+        nb = len(rec["blocks"])
+        SW, NONE, SOME, UNR = nb, nb + 1, nb + 2, nb + 3
+        blk["stmts"] = list(blk["stmts"]) + [{"k": "assign", "place": {"local": r, "proj": []}, "rv": {"k": "ref", "mut": True, "place": {"local": inner, "proj": []}}, "line": line}]
+        blk["term"] = {"k": "call", "callee": "core::iter::Iterator::next", "resolved": ADAPTOR_NEXT[inner_ty["path"]][0], "cargs": [inner_ty], "rargs": inner_ty.get("args", []),
+                       "args": [{"k": "move", "place": {"local": r, "proj": []}}], "dest": {"local": x, "proj": []}, "target": SW, "line": line}
+        rec["blocks"].append({"stmts": [{"k": "assign", "place": {"local": dx, "proj": []}, "rv": {"k": "discr", "place": {"local": x, "proj": []}}, "line": line}],
+                              "term": {"k": "switch", "discr": {"k": "move", "place": {"local": dx, "proj": []}}, "dty": isz, "arms": [[0, NONE], [1, SOME]], "otherwise": UNR, "line": line}})
+        rec["blocks"].append({"stmts": [{"k": "assign", "place": copy.deepcopy(t["dest"]),
+                                         "rv": {"k": "aggregate", "agg": "adt", "path": "core::option::Option", "variant": 0, "vname": "None", "args": dty["args"], "is_enum": True, "ops": []},
+                                         "line": line}], "term": {"k": "goto", "target": t["target"]}})
+        one = {"k": "const", "ty": usz, "bits": 1, "val": 1, "size": 8}
+        tupov = len(rec["locals"])
+        rec["locals"].append({"k": "tuple", "elems": [usz, BOOL]})
+        # (core's Enumerate::next carries #[rustc_inherit_overflow_checks]: `count += 1` is a checked addition in a build with overflow checks)
+        rec["blocks"].append({"stmts": [
+            {"k": "assign", "place": {"local": item, "proj": []},
+             "rv": {"k": "use", "op": {"k": "move", "place": {"local": x, "proj": [{"k": "downcast", "variant": 1, "name": "Some"}, {"k": "field", "i": 0, "ty": item_ty}]}}}, "line": line},
+            {"k": "assign", "place": {"local": kcur, "proj": []}, "rv": {"k": "use", "op": {"k": "copy", "place": {"local": cnt, "proj": []}}}, "line": line},
+            {"k": "assign", "place": {"local": tupov, "proj": []}, "rv": {"k": "binop", "op": "AddWithOverflow", "a": {"k": "copy", "place": {"local": cnt, "proj": []}}, "b": copy.deepcopy(one)}, "line": line}],
+            "term": {"k": "assert", "cond": {"k": "move", "place": {"local": tupov, "proj": [{"k": "field", "i": 1, "ty": BOOL}]}}, "expected": False, "kind": "Overflow:Add",
+                     "ops": [{"k": "copy", "place": {"local": cnt, "proj": []}}, copy.deepcopy(one)], "target": UNR + 1, "line": line, "exp": True}})
+        rec["blocks"].append({"stmts": [], "term": {"k": "unreachable"}})
+        rec["blocks"].append({"stmts": [
+            {"k": "assign", "place": {"local": cnt, "proj": []}, "rv": {"k": "use", "op": {"k": "move", "place": {"local": tupov, "proj": [{"k": "field", "i": 0, "ty": usz}]}}}, "line": line},
+            {"k": "assign", "place": {"local": pair, "proj": []}, "rv": {"k": "aggregate", "agg": "tuple", "ops": [{"k": "copy", "place": {"local": kcur, "proj": []}},
+                                                                                                                {"k": "move", "place": {"local": item, "proj": []}}]}, "line": line},
+            {"k": "assign", "place": copy.deepcopy(t["dest"]),
+             "rv": {"k": "aggregate", "agg": "adt", "path": "core::option::Option", "variant": 1, "vname": "Some", "args": dty["args"], "is_enum": True,
+                    "ops": [{"k": "move", "place": {"local": pair, "proj": []}}]}, "line": line}],
+            "term": {"k": "goto", "target": t["target"]}})
+        rec.setdefault("_expand_filter", set()).add(inner)
+        stats.setdefault(rec["path"], []).append("desugar:Enumerate<adaptor>::next")
         return True
     return False
 
@@ -1429,9 +1554,10 @@ def apply(prog):
                         touched.add(p)
     for p, rec in recs.items():
         for _ in range(6):
-            if not (desugar(rec, prog, stats) | desugar_adaptor_next(rec, prog, stats)):
+            if not (desugar(rec, prog, stats) | desugar_enumerate_over_adaptor(rec, prog, stats) | desugar_adaptor_next(rec, prog, stats)):
                 break
             touched.add(p)
+        rec.pop("_expand_filter", None)
     depth_of = {}
     for p, rec in recs.items():
         for _ in range(MAX_DEPTH + 1):
